@@ -44,6 +44,25 @@ Definition simple_sub (s : subspec) : bool :=
   | _, _, _ => false
   end.
 
+(* a sub-select that aggregates in the legal SPARQL shape and does not cut: an explicit projection of group keys and
+   aggregate aliases, the aliases pairwise different and no group key.  Its result, as a multiset, does not depend on the
+   order of its input either (AggProofs.v). *)
+Definition alias_of (a : aggk * var * var) : var := snd a.
+Fixpoint nodup_v (l : list var) : bool := match l with [] => true | x :: r => negb (mem_var x r) && nodup_v r end.
+Definition agg_shape (pr : option (list pitem)) (gb : list var) : bool :=
+  match pr with
+  | None => false
+  | Some items =>
+      let als := map alias_of (aggs_of pr) in
+      nodup_v als && forallb (fun al => negb (mem_var al gb)) als
+      && forallb (fun i => match i with PVar x => mem_var x gb | PAgg _ _ _ => true end) items
+  end.
+Definition pcols (pr : option (list pitem)) : list var :=
+  match pr with Some items => map (fun i => match i with PVar x => x | PAgg _ _ al => al end) items | None => [] end.
+Definition agg_sub (s : subspec) : bool :=
+  agg_shape (ss_proj s) (ss_group s) && match ss_limit s with None => true | Some _ => false end.
+Definition order_free (s : subspec) : bool := simple_sub s || agg_sub s.
+
 (* variables some solution may bind *)
 Fixpoint poss (l : lop) : list var :=
   match l with
@@ -53,7 +72,7 @@ Fixpoint poss (l : lop) : list var :=
   | LGraph i g => match g with GVar x => x :: poss i | _ => poss i end
   | LSelection i _ => poss i
   | LJoin a b => poss a ++ poss b
-  | LSubquery i s => match proj_vars (ss_proj s) with Some vs => inter (poss i) vs | None => poss i end
+  | LSubquery i s => match proj_vars (ss_proj s) with Some vs => if simple_sub s then inter (poss i) vs else vs | None => poss i end
   | LBind i _ v => v :: poss i
   | LValues vs _ => vs
   end.
@@ -91,7 +110,7 @@ Fixpoint ok_in (inb : list var) (l : lop) {struct l} : bool :=
   | LSelection i c =>
       ok_in inb i && forallb (fun x => mem_var x (cert i) || negb (mem_var x inb)) (expr_vars c)
   | LJoin a b => ok_in inb a && ok_in (inb ++ poss a) b
-  | LSubquery i s => simple_sub s && ok_in [] i
+  | LSubquery i s => order_free s && ok_in [] i
   | LBind i args v =>
       ok_in inb i && negb (mem_var v inb)
       && forallb (fun x => mem_var x (cert i) || negb (mem_var x inb)) (barg_vars args)
